@@ -145,6 +145,99 @@ def head_overlap_gen(rng):
     return ProbeGrammar(rng, variants, [], {})
 
 
+def wordbreak_gen(rng):
+    """words in which the same COMP_WORDBREAKS character occurs twice or more (`--color=fg=red`, `http://alpha:80/`):
+    bash has already put everything up to the *last* such character on the command line, so that is what must be
+    stripped from the candidates"""
+    br = rng.choice(["=", ":", "=", ":", "@"])
+    keys = rng.sample(["fg", "bg", "k", "host", "a"], 2)
+    vals = rng.sample(["red", "green", "r2", "80", "81", "x"], 3)
+    shape = rng.randrange(4)
+    outputs = {}
+    if shape == 0:      # plain literals
+        lits = [f"--color{br}{keys[0]}{br}{vals[0]}", f"--color{br}{keys[0]}{br}{vals[1]}", f"--color{br}{keys[1]}{br}{vals[2]}"]
+        first = ("alt", [("lit", l, None) for l in lits])
+    elif shape == 1:    # within-word alternatives after two break characters
+        first = ("sub", [("lit", f"--color{br}", None),
+                         ("alt", [("sub", [("lit", f"{keys[0]}{br}", None), ("alt", [("lit", v, None) for v in vals[:2]])]),
+                                  ("lit", f"{keys[1]}{br}{vals[2]}", None)])])
+    elif shape == 2:    # url-like: two different and one repeated break character
+        first = ("sub", [("lit", "http://", None), ("alt", [("lit", "alpha", None), ("lit", "beta", None)]), ("lit", ":", None),
+                         ("alt", [("lit", "80/", None), ("lit", "81/", None)])])
+    else:               # a command after the second break character
+        outputs[0] = rng.choice(["alpha\nbeta\n", "k1\nk2\tdescr\n"])
+        first = ("sub", [("lit", f"--set{br}{keys[0]}{br}", None), ("alt", [("lit", vals[0], None), ("cmd", '__probe 0 "$1" "$2"')])])
+    lead = rng.choice(["paint", "fetch"])
+    variants = [("seq", [("lit", lead, None), first, ("lit", "next", None)])]
+    if shape == 0:
+        fulls = lits
+    elif shape == 1:
+        fulls = [f"--color{br}{keys[0]}{br}{v}" for v in vals[:2]] + [f"--color{br}{keys[1]}{br}{vals[2]}"]
+    elif shape == 2:
+        fulls = [f"http://{h}:{p_}" for h in ("alpha", "beta") for p_ in ("80/", "81/")]
+    else:
+        fulls = [f"--set{br}{keys[0]}{br}{v}" for v in [vals[0]] + [l.split("\t")[0] for l in outputs[0].split("\n") if l]]
+    extra = [([lead], w) for w in fulls]
+    if rng.random() < 0.4:
+        w = f"{keys[0]}{br}{keys[1]}{br}{vals[0]}"
+        variants.append(("seq", [("lit", "other", None), ("lit", w, None)]))
+        extra.append((["other"], w))
+    pg = ProbeGrammar(rng, variants, [], outputs)
+    pg.extra_words = extra
+    return pg
+
+
+def long_candidate_gen(rng):
+    """a command inside a word, followed by more of the word, whose candidates include one of ten or more characters
+    and a shorter one that is its prefix (the template tries a command's candidates longest first; lengths 9 and 19
+    compare differently as numbers and as text)"""
+    longs = [("alexander", "alexander-the-great"), ("host", "host-with-a-long-name"), ("ab", "ab-0123456789"), ("x" * 9, "x" * 19)]
+    a, b = rng.choice(longs)
+    outputs = {0: f"{a}\n{b}\nbob\n", 1: "h1\nh2\n"}
+    sep = rng.choice(["/", ":", ",", "@"])
+    shape = rng.randrange(3)
+    if shape == 0:
+        word = ("sub", [("cmd", '__probe 0 "$1" "$2"'), ("lit", sep, None), ("cmd", '__probe 1 "$1" "$2"')])
+        tails = ["h1", "h"]
+    elif shape == 1:
+        word = ("sub", [("lit", "u=", None), ("cmd", '__probe 0 "$1" "$2"'), ("lit", sep, None), ("alt", [("lit", "on", None), ("lit", "off", None)])])
+        tails = ["on", "o"]
+    else:
+        word = ("sub", [("cmd", '__probe 0 "$1" "$2"'), ("lit", sep + "end", None)])
+        tails = ["end"[:2], ""]
+    pre = "u=" if shape == 1 else ""
+    variants = [("seq", [word, ("lit", "done", None)])]
+    pg = ProbeGrammar(rng, variants, [], outputs)
+    pg.extra_words = [([], pre + c + (sep if shape != 2 else sep + "e")[: len(sep) if shape != 2 else 2] + t) for c in (a, b, "bob") for t in tails]
+    pg.extra_words += [([pre + c + sep + ("h1" if shape == 0 else "on" if shape == 1 else "end")], "d") for c in (a, b)]
+    return pg
+
+
+def fallback_gen(rng):
+    """`||` with a within-word expression in a branch that is not the last one: the typed prefix is extended by nothing of
+    that branch, and the wanted candidate is in the next one"""
+    vals = rng.sample(["always", "never", "auto", "x", "y1"], 2)
+    head = rng.choice(["--color=", "--re=", "k:"])
+    word = ("sub", [("lit", head, None), ("alt", [("lit", v, None) for v in vals])])
+    nxt = rng.sample(["plain", "-e", "zed", "+e", "last"], 3)
+    shape = rng.randrange(4)
+    if shape == 0:
+        first = ("fb", [word, ("lit", nxt[0], None)])
+    elif shape == 1:
+        first = ("fb", [word, ("seq", [("lit", nxt[0], None), ("lit", "arg", None)]), ("lit", nxt[1], None)])
+    elif shape == 2:
+        word2 = ("sub", [("lit", "--b=", None), ("alt", [("lit", v, None) for v in vals])])
+        first = ("fb", [("alt", [word, word2]), ("lit", nxt[0], None), ("lit", nxt[1], None)])
+    else:
+        first = ("fb", [("lit", nxt[2], None), word, ("lit", nxt[0], None)])
+    lead = rng.choice([None, "sub"])
+    variants = [("seq", ([("lit", lead, None)] if lead else []) + [first, ("lit", "end", None)])]
+    pg = ProbeGrammar(rng, variants, [], {})
+    ws = [lead] if lead else []
+    pg.extra_words = [(ws, w) for w in nxt[:2]] + [(ws, head + vals[0])]
+    return pg
+
+
 def vocabulary(pg):
     """literal texts, command candidates, and a few foreign / glob-looking words"""
     lits = []
@@ -217,6 +310,17 @@ def explore(rng, pg, script, workdir, max_seqs=14, max_len=3, wordbreaks=(None, 
                 if wb is not None and not any(c in dwb for c in p) and rng.random() > 0.1:
                     continue
                 lines.append((wb, s, p))
+    # words the generator knows to be accepted at a known place (repeated word-break characters): every cut that
+    # ends at, just after, or shortly after a word-break character, under the default and the empty COMP_WORDBREAKS
+    dwb = default_wordbreaks()
+    for ws, w in getattr(pg, "extra_words", []):
+        cuts = {len(w), len(w) - 1, 1}
+        for i, c in enumerate(w):
+            if c in dwb:
+                cuts |= {i, i + 1, i + 2}
+        for cut in sorted(c for c in cuts if 0 < c <= len(w)):
+            for wb in wordbreaks:
+                lines.append((wb, ws, w[:cut]))
     return lines
 
 
